@@ -215,7 +215,13 @@ def check_generate_levels(ctx, tree, read, write, max_unsupported, reuse=False):
     from sqlglot.dialects.dialect import Dialect
 
     wn = write or "base"
-    case = {"sql": tree.sql(dialect=read), "read": read or "base", "write": wn, "max_unsupported": max_unsupported, "reused_generator": reuse}
+    try:
+        src_text = tree.sql(dialect=read)
+    except Exception:
+        # the tree cannot even be written back in its own dialect (an internal error: C05's subject)
+        ctx.count("skipped:internal(C05)")
+        return
+    case = {"sql": src_text, "read": read or "base", "write": wn, "max_unsupported": max_unsupported, "reused_generator": reuse}
     out = {}
     for L in (ErrorLevel.IGNORE, ErrorLevel.WARN, ErrorLevel.RAISE, ErrorLevel.IMMEDIATE):
         cap = capture()
